@@ -32,7 +32,8 @@ def any_template(draw: Callable) -> tuple:
         fn2 = draw(st.sampled_from(ALL_TEMPLATES))
         src2, name2 = fn2(draw)
         src, name = src + "\n" + src2, name + "&" + name2
-    return src, name
+    src, shuffled = common.shuffle_statements(draw, src)
+    return src, name + ("+shuffled" if shuffled else "")
 
 
 def corpus_traits(draw: Any, item: dict) -> list:
